@@ -34,7 +34,7 @@ def witCfg : Cfg Bytes :=
     omitXFF := true, omitXFP := false, omitXFH := false }
 
 /-- plain-HTTP request for host "a" from 1.2.3.4 (not trusted) -/
-def witConn : Conn := ⟨b!"1.2.3.4:80", false, b!"a"⟩
+def witConn : Conn := ⟨b!"1.2.3.4:80", false, b!"a", false⟩
 
 /-- FULL statement (fails): for an untrusted peer the outcome is the same for ANY two header lists. -/
 theorem untrusted_noninterference_full_fails :
